@@ -396,6 +396,71 @@ def rule_R13b_chunks(text):
     return text, n
 
 
+def rule_R13c_chunks_take_enum(text):
+    """R13c (with `//@ desugar`): `for (I, D) in X.chunks_exact(N).take(M).enumerate() { B }` ->
+    `verif_assert(N != 0); let verif_tK = verif_min(M, X.len() / N); let mut k = 0; while k < verif_tK { let I = k; let D = &X[k * N..(k + 1) * N]; B k += 1; }`
+    (chunks_exact yields the X.len() / N full chunks in order and panics for N == 0; take(M) stops after M; enumerate numbers from 0)."""
+    n = 0
+    while True:
+        m = rsscan.mask(text)
+        hit = None
+        for mt in re.finditer(r'\bfor\s+\(\s*(\w+)\s*,\s*(\w+)\s*\)\s+in\s+', m):
+            if not rsscan.is_stmt_start(m, mt.start(), 0):
+                continue
+            bo = rsscan.find_body_open(m, mt.end())
+            if bo < 0:
+                continue
+            hdr = ''.join(text[mt.end():bo].split())
+            z = re.fullmatch(r'(.+?)\.chunks_exact\((.+?)\)\.take\((.+?)\)\.enumerate\(\)', hdr)
+            if z:
+                hit = (mt.start(), bo, z.group(1), z.group(2), z.group(3), mt.group(1), mt.group(2))
+                break
+        if not hit:
+            break
+        a, bo, x, cn, tk, iv, dv = hit
+        bc = rsscan.match_close(m, bo)
+        k = 'verif_e%d' % n
+        head = 'verif_assert(%s != 0); let verif_t%d = verif_min(%s, %s.len() / %s); let mut %s: usize = 0; while %s < verif_t%d ' % (cn, n, tk, x, cn, k, k, n)
+        first = '{ let %s = %s; let %s = &%s[%s * %s..(%s + 1) * %s]; ' % (iv, k, dv, x, k, cn, k, cn)
+        body = text[bo + 1:bc]
+        new = head + '\n' * text[a:bo].count('\n') + first + body + ' %s += 1; }' % k
+        text = text[:a] + new + text[bc + 1:]
+        n += 1
+    return text, n
+
+
+def rule_R17_untransmute(text):
+    """R17 (opt-in, `//@ untransmute`): `let NAME[: TYPE] = [crate::]array_utils::workaround_transmute[_mut](SRC);` is removed and NAME
+    renamed to SRC up to the end of the enclosing block.  workaround_transmute re-types `&[Complex<T>]` as `&[Complex<A>]` of the same
+    length where A == T is asserted by the constructor (TypeId check): the identity on the shape level."""
+    n = 0
+    while True:
+        m = rsscan.mask(text)
+        mt = re.search(r'\blet\s+(\w+)\s*(?::[^=;]*)?=\s*(?:crate::)?array_utils::workaround_transmute(?:_mut)?\(\s*(\w+)\s*\)\s*;', m)
+        if not mt:
+            break
+        name, src = mt.group(1), mt.group(2)
+        # end of the enclosing block
+        depth, q = 0, mt.end()
+        while q < len(m):
+            if m[q] in '([{':
+                depth += 1
+            elif m[q] in ')]}':
+                if depth == 0:
+                    break
+                depth -= 1
+            q += 1
+        rest = text[mt.end():q]
+        mrest = m[mt.end():q]
+        out, last = [], 0
+        for mm in re.finditer(r'\b%s\b' % re.escape(name), mrest):
+            out.append(rest[last:mm.start()]); out.append(src); last = mm.end()
+        out.append(rest[last:])
+        text = text[:mt.start()] + '\n' * text[mt.start():mt.end()].count('\n') + ''.join(out) + text[q:]
+        n += 1
+    return text, n
+
+
 def annotate_closure(text, k, params, spec):
     """R1 (closures): give the k-th closure literal typed parameters and a requires/ensures clause."""
     m = rsscan.mask(text)
@@ -501,6 +566,8 @@ class FnEdit:
         self.desugar_vars = []
         self.loadstore = []
         self.specof = None
+        self.sig = None
+        self.untransmute = False
 
 
 class Generator:
@@ -512,6 +579,7 @@ class Generator:
         self.segs = []
         self.files = {}
         self.log = []          # rewrite-rule applications etc.
+        self.pending_item_subs = []
         self.functions = []    # functions under contract: dict(name,file,line,external,probe)
         self.meta = {'unit': None, 'modes': ['S'], 'props': [], 'tier': 'quick'}
         self.rule_counts = {}
@@ -575,7 +643,7 @@ class Generator:
                 cond_stack.pop()
             elif not active():
                 # skip directive (and, for fn blocks, their body) when inactive
-                if cmd in ('fn', 'macrofn'):
+                if cmd in ('fn', 'macrofn', 'macroexpr'):
                     while i < len(lines) and lines[i].strip() != '//@ end':
                         i += 1
             elif cmd == 'define':
@@ -596,7 +664,17 @@ class Generator:
                 self._process_template(os.path.join(VX_DIR, tok[1]), self._kv(tok[2:]))
             elif cmd == 'item':
                 self._do_item(tok[1], tok[2], tok[3], tok[4:], rel, i + 1)
-            elif cmd in ('fn', 'macrofn'):
+            elif cmd == 'pin':
+                # `//@ pin FILE REGEX`: an assumed contract is tied to the source text it was read from
+                pf = self.file(tok[1])
+                rg = d.split(None, 2)[2]
+                if not re.search(rg, pf.src):
+                    raise Inconclusive('%s:%d: pinned text %r no longer found in %s' % (rel, i + 1, rg, tok[1]))
+                self.log.append({'pin': tok[1], 'regex': rg})
+            elif cmd == 'itemsub':
+                rg, rp = d[len('itemsub'):].split('=>', 1)
+                self.pending_item_subs.append((rg.strip(), rp.strip()))
+            elif cmd in ('fn', 'macrofn', 'macroexpr'):
                 j = i + 1
                 block = []
                 while j < len(lines) and lines[j].strip() != '//@ end':
@@ -607,6 +685,8 @@ class Generator:
                 edit = self._parse_edit(block, rel)
                 if cmd == 'fn':
                     self._do_fn(tok[1], tok[2], self._kv(tok[3:]), edit, rel, i + 1)
+                elif cmd == 'macroexpr':
+                    self._do_macroexpr(tok[1], tok[2], self._kv(tok[3:]), edit, rel, i + 1)
                 else:
                     self._do_macrofn(tok[1], tok[2], tok[3], self._kv(tok[4:]), edit, rel, i + 1)
                 i = j
@@ -681,6 +761,10 @@ class Generator:
                     e.shape = True
                 elif c == 'specof':
                     e.specof = tok[1]
+                elif c == 'untransmute':
+                    e.untransmute = True
+                elif c == 'sig':
+                    e.sig = d[len('sig'):].strip()
                 elif c == 'selfmut':
                     e.selfmut = tok[1]
                 elif c == 'desugar':
@@ -750,6 +834,13 @@ class Generator:
                     prev_end = pls - 1
                 else:
                     break
+        for rg, rp in self.pending_item_subs:
+            text, k = re.subn(rg, rp, text)
+            if k == 0:
+                raise Inconclusive('item %s: itemsub %r did not match' % (name, rg))
+            self._count('local-sub', k)
+            self.log.append({'rule': 'local-sub', 'item': name, 'regex': rg, 'repl': rp, 'count': k})
+        self.pending_item_subs = []
         text = self._apply_rules(text, frel, it.first_line)
         if 'noderive' in kv:
             text, k = re.subn(r'(?m)^[ \t]*#\[derive\([^\]]*\)\][ \t]*$', '', text)
@@ -835,43 +926,129 @@ class Generator:
         line0 = rsscan.line_of(sub.src, a)
         # instantiate macro params
         if 'use' in kv:
-            uf = self.file(kv['use'])
-            inst = kv['inst']
-            inv = None
-            for mt in re.finditer(r'\b%s\s*!\s*\(' % re.escape(macro), uf.m):
-                op = mt.end() - 1
-                cl = rsscan.match_close(uf.m, op)
-                parts = split_top_commas(uf.m, op + 1, cl, closure_params=True)
-                args = [re.sub(r'//[^\n]*', '', uf.src[x:y]).strip() for x, y in parts]
-                if args and args[0] == inst:
-                    inv = args
-                    break
-            if inv is None:
-                raise Inconclusive('no invocation %s!(%s, ..) in %s' % (macro, inst, kv['use']))
-            # macro parameter names from the first rule pattern
-            hdr = f.src[mac.body_open:mac.end]
-            pm = re.search(r'\(\s*((?:\$\w+\s*:\s*\w+\s*,?\s*)+)\)\s*=>', hdr)
-            if not pm:
-                raise Inconclusive('cannot parse params of macro %s' % macro)
-            names = re.findall(r'\$(\w+)\s*:', pm.group(1))
-            if len(names) != len(inv):
-                raise Inconclusive('macro %s arity mismatch' % macro)
-            for nm, val in zip(names, inv):
-                # R12: `$f(self)` with closure-valued arg `|this: &X<_>| BODY` -> BODY[this:=self]
-                cm = re.match(r'\|\s*(\w+)\s*(?::[^|]*)?\|\s*(.*)$', val, re.S)
-                if cm:
-                    var, body = cm.group(1), cm.group(2).strip()
-                    def repl(mm, var=var, body=body):
-                        arg = mm.group(1).strip()
-                        return '(' + re.sub(r'\b%s\b' % var, arg, body) + ')'
-                    text, k = re.subn(r'\$%s\s*\(([^()]*)\)' % nm, repl, text)
-                    if k:
-                        self._count('R12', k)
-                text = re.sub(r'\$%s\b' % nm, val.replace('\\', '\\\\'), text)
-            if '$' in rsscan.mask(text):
-                raise Inconclusive('macrofn %s::%s: unsubstituted $ remains' % (macro, fname))
-            self.log.append({'macro_inst': macro, 'struct': inst, 'args': inv[1:]})
+            text = self._instantiate_macro(f, mac, macro, text, kv, '%s::%s' % (macro, fname))
         self._emit_fn(text, frel, line0, '%s!::%s' % (macro, fname), kv, edit, trel, tline)
+
+
+    def _macro_params(self, f, mac, macro):
+        """parameter list of the (single) rule of a macro_rules!: [(name, rep_sep or None)]"""
+        hdr = f.src[mac.body_open:mac.end]
+        mh = rsscan.mask(hdr)
+        p0 = mh.find('(')
+        if p0 < 0:
+            raise Inconclusive('cannot parse params of macro %s' % macro)
+        p1 = rsscan.match_close(mh, p0)
+        if not re.match(r'\s*=>', mh[p1 + 1:]):
+            raise Inconclusive('cannot parse params of macro %s' % macro)
+        names = []
+        for a, b in split_top_commas(mh, p0 + 1, p1):
+            piece = hdr[a:b].strip()
+            m1 = re.fullmatch(r'\$(\w+)\s*:\s*\w+', piece)
+            m2 = re.fullmatch(r'\$\(\s*\$(\w+)\s*:\s*\w+\s*\)\s*([;,]?)\s*\*', piece)
+            if m1:
+                names.append((m1.group(1), None))
+            elif m2:
+                names.append((m2.group(1), m2.group(2) or ' '))
+            elif piece:
+                raise Inconclusive('macro %s: unsupported pattern piece %r' % (macro, piece))
+        return names
+
+    def _find_invocation(self, uf, macro, inst, infn=None):
+        lo, hi = 0, len(uf.m)
+        if infn:
+            it = self._locate_fn(uf, infn)
+            lo, hi = it.start, it.end
+        for mt in re.finditer(r'\b%s\s*!\s*\(' % re.escape(macro), uf.m[lo:hi]):
+            op = lo + mt.end() - 1
+            cl = rsscan.match_close(uf.m, op)
+            parts = split_top_commas(uf.m, op + 1, cl, closure_params=True)
+            args = [re.sub(r'//[^\n]*', '', uf.src[x:y]).strip() for x, y in parts]
+            if infn or inst is None or (args and args[0] == inst):
+                return args
+        return None
+
+    def _instantiate_macro(self, f, mac, macro, text, kv, what):
+        uf = self.file(kv['use'])
+        inst = kv.get('inst')
+        inv = self._find_invocation(uf, macro, inst, kv.get('infn'))
+        if inv is None:
+            raise Inconclusive('no invocation %s!(%s, ..) in %s' % (macro, inst or kv.get('infn'), kv['use']))
+        names = self._macro_params(f, mac, macro)
+        if len(names) != len(inv):
+            raise Inconclusive('macro %s arity mismatch' % macro)
+        keep = set((kv.get('keep') or '').split(',')) - {''}
+        # repetitions `$( ... $name ... )*` are expanded first, once per element of the invocation's list
+        for (nm, sep), val in zip(names, inv):
+            if sep is None:
+                continue
+            elems = [e.strip() for e in val.split(sep.strip() or None) if e.strip()] if val.strip() else []
+            while True:
+                m = rsscan.mask(text)
+                hit = None
+                for mt in re.finditer(r'\$\(', m):
+                    op = mt.end() - 1
+                    cl = rsscan.match_close(m, op)
+                    inner = text[op + 1:cl]
+                    if re.search(r'\$%s\b' % nm, inner) and re.match(r'\s*[;,]?\s*\*', m[cl + 1:]):
+                        tail = re.match(r'\s*[;,]?\s*\*', m[cl + 1:]).end()
+                        hit = (mt.start(), cl + 1 + tail, inner)
+                        break
+                if hit is None:
+                    break
+                a, b, inner = hit
+                rep = ''.join(re.sub(r'\$%s\b' % nm, e, inner) for e in elems)
+                # keep the line count of the surrounding text stable where possible
+                d = text[a:b].count('\n') - rep.count('\n')
+                text = text[:a] + rep + ('\n' * d if d > 0 else '') + text[b:]
+                self._count('R12-rep', len(elems))
+        for (nm, sep), val in zip(names, inv):
+            if sep is not None:
+                continue
+            if nm in keep:
+                # declared abstraction: the macro argument (a register-level kernel: closure or path) is replaced by the
+                # abstract function `verif_<param>` declared in the template
+                text, k = re.subn(r'\$%s\b' % nm, 'verif_' + nm, text)
+                self._count('R12-keep', k)
+                continue
+            # R12: `$f(self)` with closure-valued arg `|this: &X<_>| BODY` -> BODY[this:=self]
+            cm = re.match(r'\|\s*(\w+)\s*(?::[^|]*)?\|\s*(.*)$', val, re.S)
+            if cm:
+                var, body = cm.group(1), cm.group(2).strip()
+                def repl(mm, var=var, body=body):
+                    arg = mm.group(1).strip()
+                    return '(' + re.sub(r'\b%s\b' % var, arg, body) + ')'
+                text, k = re.subn(r'\$%s\s*\(([^()]*)\)' % nm, repl, text)
+                if k:
+                    self._count('R12', k)
+            text = re.sub(r'\$%s\b' % nm, val.replace('\\', '\\\\'), text)
+        if '$' in rsscan.mask(text):
+            raise Inconclusive('macro %s: unsubstituted $ remains' % what)
+        self.log.append({'macro_inst': macro, 'struct': inst or kv.get('infn'), 'args': inv[1:] if inst else inv})
+        return text
+
+    def _do_macroexpr(self, frel, macro, kv, edit, trel, tline):
+        """expression macro (`macro_rules! m { (params) => {{ BODY }} }`) emitted as a function: `//@ sig` gives the signature,
+        the body is the macro body instantiated with the arguments of its invocation inside fn `infn` of file `use`."""
+        f = self.file(frel)
+        its = f.find_named('macro', macro)
+        if len(its) != 1:
+            raise Inconclusive('macro %s in %s: found %d' % (macro, frel, len(its)))
+        mac = its[0]
+        m = f.m
+        p0 = m.find('(', mac.body_open)
+        p1 = rsscan.match_close(m, p0)
+        mt = re.match(r'\s*=>\s*\{\s*\{', m[p1 + 1:])
+        if not mt:
+            raise Inconclusive('macro %s: body is not `{{ ... }}`' % macro)
+        bo = p1 + 1 + mt.end() - 1          # inner '{'
+        bc = rsscan.match_close(m, bo)
+        body = f.src[bo:bc + 1]
+        line0 = rsscan.line_of(f.src, bo)
+        body = self._instantiate_macro(f, mac, macro, body, kv, macro)
+        if not edit.sig:
+            raise Inconclusive('macroexpr %s: //@ sig missing' % macro)
+        text = edit.sig + ' ' + body
+        self._emit_fn(text, frel, line0, '%s!' % macro, kv, edit, trel, tline)
 
     def _emit_fn(self, text, frel, line0, path, kv, edit, trel, tline):
         text = self._apply_rules(text, frel, line0)
@@ -895,6 +1072,12 @@ class Generator:
             text = sig0 + body0
             self._count('R15')
             self.log.append({'rule': 'R15', 'fn': path})
+        if edit.untransmute:
+            text, k = rule_R17_untransmute(text)
+            if k == 0:
+                raise Inconclusive('%s: untransmute requested but no workaround_transmute binding found' % path)
+            self._count('R17', k)
+            self.log.append({'rule': 'R17', 'fn': path, 'count': k})
         for rg, rp in edit.subs:
             def _padded(mm, rp=rp):
                 newt = mm.expand(rp)
@@ -915,6 +1098,8 @@ class Generator:
             R13_SLICE_VARS.update(edit.desugar_vars)
             text, k = rule_R13_desugar(text)
             text, k2 = rule_R13b_chunks(text)
+            text, k3 = rule_R13c_chunks_take_enum(text)
+            k2 += k3
             if k + k2:
                 self._count('R13', k + k2)
                 self.log.append({'rule': 'R13', 'fn': path, 'count': k + k2})
